@@ -1,9 +1,14 @@
-HOOK_COMMITS = []
+HOOK_COMMITS = ["53d6013"]
 NOT_APPLICABLE = {}
 TEXTS = {
  "C15": {
   "technique": "Lean 4 theorems over operator cells regenerated from numeric.go/objects.go by a Go-to-Lean translator; hand model of array/map recursion tied by exhaustive pool^2 x operators correspondence",
   "level": "Machine-checked proof: equal_comm (symmetry of == on all nested well-formed values), neq_not_eq, binop_no_panic (no operator application reaches a Go panic), trichotomy, le_iff_lt_or_eq, lt_flip are Lean theorems quantified over all values and all float arithmetic instances, stated about definitions that goextract regenerates from the Go source on every run; a source edit changes the Lean term and the proof is re-checked.",
   "note": "Trusted: Lean kernel; goextract translator (fail-closed subset); hand model Model/Ops.lean for Array/Map recursion and left-operand dispatch, tied by the `ops` stream (pool^2 x 15 operators exhaustive + random nested values, model vs Object.BinaryOp/Equal and vs the VM); float arithmetic abstract (FloatOps), IEEE comparison defined on bit patterns. SyncMap/RuntimeError/user types outside the modelled value set.",
+ },
+ "C09": {
+  "technique": "Lean 4 inductive-invariant proof over an interleaving model of Run/Abort/Invoker/vmPool/Eval.run at sync-point granularity; synchronisation-operation lists regenerated from vm.go/eval.go/cmd/ugo/main.go and compared with the model's step order (shape facts); exhaustive forcing of the product of sync points on the real code through the verifSync hook",
+  "level": "Machine-checked proof of the part that is true (C09_partial / abort_after_reset_not_lost: an Abort whose stores land outside the reset windows and after which no child is registered is honoured within one further instruction in every interleaving of any length; abort_idempotent; reset_allows_rerun) and machine-checked refutation of the full statement (C09_full_false, plus witnesses lost_at_invoke_window, lost_at_late_acquire, lost_at_eval_start); the lost aborts are reproduced deterministically on the real code on every run (open findings).",
+  "note": "PARTIAL: C09_full is false of the code (open findings C09:abort-before-reset@Run-entry, @Invoke, @Eval-run and C09:abort-before-acquire@Invoke); the repair (epoch / different reset point) is a design decision because optimizer.go relies on Abort-then-Run on an idle VM. Trusted: Lean kernel; hand model Model/Conc.lean tied by shape facts over regenerated Gen/AbortOps.lean and by stream `sched`; sequential consistency of Go atomics/mutexes, scheduler fairness; nesting depth 1, one runner and one aborter; callbacks that neither call back nor poll Aborted() are outside the claim.",
  },
 }
